@@ -7,7 +7,8 @@
 //   Q = consistency of the resulting DOM (documentElement identity, ownerDocument, parent/sibling links,
 //       getElementsByTagName, lookupNamespaceURI, second normalizeDocument, serialise + re-parse)
 //   node  := (NS:LOCAL b=RAWBASE r=RESOLVEDBASE{ @NS:LOCAL=CPS} {node}) | T<cps> | C<cps>
-//   cps   := code points in hex separated by '.'; adjacent text nodes are merged, empty text nodes dropped
+//   cps   := code points in hex separated by '.'; adjacent text nodes are merged, empty text nodes dropped;
+//            processing instructions are not dumped, nor is white-space-only text directly under the document
 #include "xh_common.hpp"
 #include <xercesc/parsers/XercesDOMParser.hpp>
 #include <xercesc/parsers/DOMLSParserImpl.hpp>
@@ -136,6 +137,9 @@ static void dumpChildren(DOMNode* p, std::string& out) {
         if (t == DOMNode::TEXT_NODE || t == DOMNode::CDATA_SECTION_NODE) {
             std::string v = cps(c->getNodeValue());
             if (v.empty()) continue;
+            // white space between the children of the document is not part of the infoset (the code keeps such
+            // Text nodes when they come out of an xi:fallback)
+            if (p->getNodeType() == DOMNode::DOCUMENT_NODE && XMLString::isAllWhiteSpace(c->getNodeValue())) continue;
             if (havePending) pendingText += "." + v; else { pendingText = v; havePending = true; }
             continue;
         }
@@ -170,7 +174,7 @@ static void dumpNode(DOMNode* n, std::string& out) {
         break;
     }
     case DOMNode::COMMENT_NODE: out += " C" + cps(n->getNodeValue()); break;
-    case DOMNode::PROCESSING_INSTRUCTION_NODE: out += " P" + plain(n->getNodeName()); break;
+    case DOMNode::PROCESSING_INSTRUCTION_NODE: break;      // the model has no processing instructions: not compared
     case DOMNode::DOCUMENT_TYPE_NODE: break;
     case DOMNode::ENTITY_REFERENCE_NODE: dumpChildren(n, out); break;
     default: out += " ?" + std::to_string((int)n->getNodeType());
